@@ -337,6 +337,16 @@ class ManagerWorld:
             for cid, i in zip(iids, g["invs"]):
                 await self.api.send(cid, make_inverter(cid, i, world.now()))
 
+    async def feed_groups(self, groups_now: list[dict[str, Any]]) -> None:
+        """Like feed(), for data that differ from the data the world was created with."""
+        from . import world  # pylint: disable=import-outside-toplevel
+
+        for g, (bids, iids) in zip(groups_now, self.ids):
+            for cid, b in zip(bids, g["bats"]):
+                await self.api.send(cid, make_battery(cid, b, world.now()))
+            for cid, i in zip(iids, g["invs"]):
+                await self.api.send(cid, make_inverter(cid, i, world.now()))
+
     @property
     def battery_ids(self) -> frozenset[int]:
         return frozenset(b for bids, _ in self.ids for b in bids)
